@@ -403,6 +403,53 @@ func isUnionOfElems(f *ssa.Function, sub string) bool {
 	if f.Blocks == nil || len(f.Params) != 1 {
 		return false
 	}
+	// accumulator form: the returned struct's sub field is phi(NewSet(), acc.Union(elem.sub))
+	for _, ret := range core.Returns(f) {
+		var setV ssa.Value
+		if ld, ok := ret.Results[0].(*ssa.UnOp); ok {
+			if al, ok := ld.X.(*ssa.Alloc); ok {
+				if v := core.StructLiteral(al)[sub]; v != nil {
+					setV = v
+				}
+			}
+		}
+		phi, ok := setV.(*ssa.Phi)
+		if !ok {
+			continue
+		}
+		okAcc := true
+		nU := 0
+		for _, e := range phi.Edges {
+			if e == ssa.Value(phi) {
+				continue
+			}
+			c, isC := e.(*ssa.Call)
+			if !isC {
+				okAcc = false
+				continue
+			}
+			if g := core.StaticCallee(c); g != nil && g.String() == "github.com/deckarep/golang-set.NewSet" {
+				continue
+			}
+			com := c.Common()
+			if !com.IsInvoke() || com.Method.Name() != "Union" || com.Value != ssa.Value(phi) {
+				okAcc = false
+				continue
+			}
+			ref, okP := core.LoadPath(com.Args[0])
+			if !okP || !strings.HasSuffix(ref.Path, "."+sub) {
+				// value-level field of a loaded element
+				if fl, isF := com.Args[0].(*ssa.Field); !isF || fl.X.Type().Underlying().(*types.Struct).Field(fl.Field).Name() != sub {
+					okAcc = false
+					continue
+				}
+			}
+			nU++
+		}
+		if okAcc && nU >= 1 {
+			return true
+		}
+	}
 	// every set-typed value stored into a local struct's sub field is NewSet() or acc.Union(elem.sub)
 	okAll := true
 	n := 0
